@@ -3,6 +3,7 @@ import re
 
 from cv import flow, rules, taint
 from cv.rules import events_of
+from props import common
 
 TITLE = "The archive is a pure function of the source and the operation history"
 TECHNIQUE = 'static analysis: taint from clock/random/environment to written bytes and names, frozen table of reviewed unordered iterations, no archive write reachable from a spawned task'
@@ -172,6 +173,23 @@ def run(ck, w):
                     "%s iterates in unspecified order on a path that writes the archive" % k[1], found[k][0].site())
     else:
         ck.ok(o, "%d instance(s): %s" % (len(found), sorted("%s/%s" % (a.split("::")[-1], b.split("::")[-1]) for a, b in found)), instances=len(found))
+    o = ck.ob("C17.2c", "an unordered collection on the write paths is consumed as a whole: nothing takes a prefix, a slice or a single element of it "
+                        "(which elements that would be depends on the hash seed)")
+    bad_narrow = []
+    n_cons = 0
+    for (root, callee), evs in found.items():
+        for e in evs:
+            if not re.search(r"::(difference|symmetric_difference|intersection|union|iter|into_iter|keys|values|drain)$", e.name):
+                continue
+            n_cons += 1
+            for x in common.narrowing_uses(lib, e.body, e):
+                bad_narrow.append((e.body, x, e))
+    if bad_narrow:
+        b_, x, e = bad_narrow[0]
+        ck.fail(o, b_.root, "part of an unordered collection is selected", "%s is applied to the result of %s: which elements are kept depends on the hash order" % (
+            x.name.split("::")[-1], e.name.split("::")[-1]), x.site())
+    else:
+        ck.ok(o, "%d unordered collection(s) checked" % n_cons, instances=n_cons)
     lb = w.body("blockdir::list_blocks")
     o = ck.ob("C17.2b", "list_blocks: completion order of the listing tasks only feeds a HashSet")
     ins = [e for e in lb.events if e.bb in lb.live and e.name.endswith("HashSet::<T, S, A>::insert")]
